@@ -5,14 +5,16 @@
 //! `F <json>` for a case that does not conform, `DONE <cases> <failed>` at the end.
 use serde_json::Value;
 use std::io::{BufRead, Write};
-use tdverif::cells::{Elem, Elem40, Elem4K, Elem8, Tok, Zst, A128, B1, B3, K32, W1K, W24, W4K, W64K, W8, W80, Z0};
+use tdverif::cells::{Elem, Elem40, Elem4K, Elem8, Tok, Zst, A128, B1, B3, K32, W1K, W1M, W24, W4K, W64K, W8, W80, Z0};
 use tdverif::util::silence_panics;
 
 fn main() {
     // Everything runs on a thread with the DEFAULT stack size of spawned threads (2 MiB) - the size library users' worker and
     // test threads have - rather than on the main thread's 8 MiB: a stack frame that grows with the element size is then an
     // observable crash, as it is for them.
-    let h = std::thread::Builder::new().stack_size(2 << 20).spawn(real_main).expect("spawn");
+    // (mebibyte elements: the harness's own by-value moves of an element need more than that)
+    let big = std::env::args().any(|a| a == "w1m");
+    let h = std::thread::Builder::new().stack_size(if big { 64 << 20 } else { 2 << 20 }).spawn(real_main).expect("spawn");
     if h.join().is_err() {
         std::process::exit(101);
     }
@@ -94,6 +96,7 @@ fn real_main() {
                     "w80" => tdverif::acc::run_case::<W80>(&case, &mut events),
                     "w1k" => tdverif::acc::run_case::<W1K>(&case, &mut events),
                     "w4k" => tdverif::acc::run_case::<W4K>(&case, &mut events),
+                    "w1m" => tdverif::acc::run_case::<W1M>(&case, &mut events),
                     "w8" => tdverif::acc::run_case::<W8>(&case, &mut events),
                     "w24" => tdverif::acc::run_case::<W24>(&case, &mut events),
                     "elem40" => tdverif::acc::run_case::<Elem40>(&case, &mut events),
